@@ -68,6 +68,7 @@ func selectJobs(w *World, o *checkOpts) []job {
 }
 
 func runCheck(w *World, o *checkOpts, t0 time.Time) int {
+	w.tier = o.tier
 	jobs := selectJobs(w, o)
 	if len(jobs) == 0 {
 		fmt.Fprintln(os.Stderr, "no functions under contract selected")
@@ -192,6 +193,7 @@ func report(w *World, o *checkOpts, results []*JobResult, wall float64) int {
 	usedContracts := map[string]bool{}
 	boundedLoops := map[string]int{}
 	abstracted := map[string][]string{}
+	var deferred []string
 	exit := 0
 	vacuityOK := 0
 	for _, jr := range results {
@@ -216,6 +218,7 @@ func report(w *World, o *checkOpts, results []*JobResult, wall float64) int {
 		for k, v := range jr.Abstracted {
 			abstracted[k] = v
 		}
+		deferred = append(deferred, jr.Deferred...)
 		fr := funcReport{Name: jr.Name}
 		if jr.Contract != nil {
 			fr.File = strings.TrimPrefix(jr.Contract.File, w.repo+"/")
@@ -296,7 +299,7 @@ func report(w *World, o *checkOpts, results []*JobResult, wall float64) int {
 	if o.property != "" && o.funcs == "" {
 		writeEvidence(w, o, evidenceInput{all: all, funcs: funcs, total: total, discharged: discharged, violations: violations, known: known, bounded: bounded,
 			bySolver: bySolver, secsBySolver: secsBySolver, trusted: trusted, inlined: inlined, used: usedContracts, boundedLoops: boundedLoops,
-			abstracted: abstracted, wall: wall, undecided: undecided, vacuityOK: vacuityOK})
+			abstracted: abstracted, deferred: deferred, wall: wall, undecided: undecided, vacuityOK: vacuityOK})
 	}
 	return exit
 }
@@ -316,6 +319,7 @@ type evidenceInput struct {
 	used         map[string]bool
 	boundedLoops map[string]int
 	abstracted   map[string][]string
+	deferred     []string
 	wall         float64
 	undecided    int
 	vacuityOK    int
@@ -392,6 +396,7 @@ func writeEvidence(w *World, o *checkOpts, in evidenceInput) {
 		"callee_contracts_used":    keysOf(in.used),
 		"abstracted_calls":         in.abstracted,
 		"not_under_contract":       notUnder,
+		"deferred_to_thorough":     in.deferred,
 		"vacuity_guards_sat":       in.vacuityOK,
 		"undecided":                in.undecided,
 		"integer_semantics":        "fixed-width two's-complement bit-vectors of the real width; no mathematical integers",
@@ -424,7 +429,9 @@ func writeReplay(w *World, o *checkOpts, jr *JobResult, ob *Obligation) (string,
 	}
 	rf.SolverOut = strings.Join(ob.Result.Attempt, " ") + "\n" + raw
 	confirmed := false
-	if ob.Result.Status == "sat" && jr.Kind == "func" {
+	if o.noReplay {
+		rf.Note = "replay disabled"
+	} else if ob.Result.Status == "sat" && jr.Kind == "func" {
 		rf.Model = namedModel(jr, ob)
 		fn := w.funcs[jr.Name]
 		src, why := buildReplay(w, fn, jr.Contract, ob, rf.Model)
